@@ -193,7 +193,11 @@ def plant(variants, defs, cls, rnd, shell):
         two = rnd.choice([("seq", [L("p"), L("q")]), ("seq", [("alt", [L("q"), L("r")]), L("p"), L("q")]), ("seq", [("opt", L("o")), L("p"), L("q")]),
                           ("seq", [L("p"), ("seq", [L("q"), L("r")])])])
         depth = rnd.choice([0, 1, 1, 2, 3])
-        if rnd.random() < 0.3:
+        if rnd.random() < 0.25:
+            # the adjacent literals sit inside a described group whose first literal does not start where the group starts
+            two = ("dd", ("alt", [("seq", [L("always"), L("auto")]), L("never")]), "when to use it")
+            depth = max(depth, 1)
+        elif rnd.random() < 0.3:
             # the left neighbour is itself a multi-element item whose first and last elements differ (only behind a definition)
             two = ("seq", [("sub", [L("key="), R("PATH"), L(",")]), L("more")])
             depth = max(depth, 1)
@@ -228,12 +232,14 @@ def plant(variants, defs, cls, rnd, shell):
             word = ("sub", [L("--u="), ph, R("UNDEF2")])
         put(word)
     elif cls == "conflicting_descr":
-        shape = rnd.choice(["alt", "alt_seq", "two_variants", "via_defs", "opt_then"])
+        shape = rnd.choice(["alt", "alt_seq", "alt_seq_apart", "two_variants", "via_defs", "opt_then"])
         site["shape"] = shape
         if shape == "alt":
             put(("alt", [L("same", "first meaning"), L("same", "second meaning")]))
         elif shape == "alt_seq":
             put(("alt", [("seq", [L("same", "one"), L("x")]), ("seq", [L("same", "two"), L("y")])]))
+        elif shape == "alt_seq_apart":
+            put(("alt", [("seq", [L("same", "one"), L("x")]), L("between"), L("between2"), ("seq", [L("same", "two"), L("y")])]))
         elif shape == "two_variants":
             variants.append(("cmd", ("seq", [L("same", "one"), L("x")])))
             variants.append(("cmd", ("seq", [L("same", "two"), L("y")])))
